@@ -18,6 +18,8 @@ HARNESS = os.path.join(VERIF, "harness")
 BUILD = os.path.join(VERIF, "build")
 WORKERS = int(os.environ.get("VERIF_WORKERS", "16"))
 SEED = int(os.environ.get("VERIF_SEED", "0") or 0)
+# evidence and replay files describe /repo itself; runs against another tree (mutant.py) write elsewhere
+OUTDIR = os.environ.get("VERIF_EVIDENCE_DIR") or (VERIF if os.path.realpath(REPO) == "/repo" else f"/tmp/ezc3d-verif-out.{os.getpid()}")
 
 FLAVOURS = {
     "plain": {"cxx": "g++", "flags": ["-std=c++14", "-O1", "-g1"], "ld": []},
@@ -65,6 +67,8 @@ def build(flavour="plain", drivers=("drv_api",)):
     key = tree_hash(flavour)
     out = os.path.join(BUILD, f"{flavour}-{key}")
     os.makedirs(out, exist_ok=True)
+    if os.path.realpath(REPO) != "/repo":
+        open(os.path.join(out, ".mutant"), "w").close()
     fl = FLAVOURS[flavour]
     inc = ["-I" + os.path.join(REPO, "include"), "-I" + HARNESS]
     jobs = []
@@ -115,7 +119,7 @@ def build(flavour="plain", drivers=("drv_api",)):
             os.replace(exe + ".tmp", exe)
     # drop stale build dirs of this flavour (disk is limited)
     for d in glob.glob(os.path.join(BUILD, f"{flavour}-*")):
-        if d != out and time.time() - os.path.getmtime(d) > 60 and os.environ.get("VERIF_KEEP_BUILDS") != "1":
+        if d != out and time.time() - os.path.getmtime(d) > 600 and os.environ.get("VERIF_KEEP_BUILDS") != "1" and os.path.realpath(REPO) == "/repo":
             shutil.rmtree(d, ignore_errors=True)
     return out
 
@@ -152,7 +156,7 @@ class Report:
     def finish(self):
         known = [k for k in load_known() if k["property"] == self.prop]
         known_sigs = {k["signature"]: k for k in known}
-        rdir = os.path.join(VERIF, "replays", self.prop)
+        rdir = os.path.join(OUTDIR, "replays", self.prop)
         shutil.rmtree(rdir, ignore_errors=True)
         new, seen_known = [], []
         for sig, f in sorted(self.findings.items()):
@@ -178,8 +182,8 @@ class Report:
         ev = {"property_id": self.prop, "tier": self.tier, "seed": SEED, "level": self.level, "coverage": cov,
               "assumptions": self.assumptions, "wall_s": round(time.time() - self.t0, 2), "violations": len(new),
               "known_findings_seen": [s for s, _, _ in seen_known], "notes": self.notes}
-        os.makedirs(os.path.join(VERIF, "evidence"), exist_ok=True)
-        json.dump(ev, open(os.path.join(VERIF, "evidence", f"{self.prop}.json"), "w"), indent=1)
+        os.makedirs(os.path.join(OUTDIR, "evidence"), exist_ok=True)
+        json.dump(ev, open(os.path.join(OUTDIR, "evidence", f"{self.prop}.json"), "w"), indent=1)
         c = cov
         print(f"[{self.prop}/{self.tier}] states={c.get('states')} transitions={c.get('transitions')} evaluations={c.get('evaluations')} "
               f"exhaustive={c.get('exhaustive')} new_violations={len(new)} known={len(seen_known)} wall={ev['wall_s']}s")
@@ -307,6 +311,120 @@ def check_api(prop, tier, deadline):
     return rep.finish()
 
 
+# ---------------------------------------------------------------------------------------------- C13
+C13_RUNS = [("mut", "C13", 4, 6), ("frames", "C13", 4, 6), ("c07", "C13", 4, 6), ("params", "C13", 2, 3), ("lookup", "C13,C11", 4, 6), ("build", "C13,C01,C03", 3, 4)]
+
+
+def check_c13(tier, deadline):
+    rep = Report("C13", tier, "model_checking")
+    runs = []
+    for alphabet, oracles, dq, dt in C13_RUNS:
+        d = run_api("asan", alphabet, oracles, dq if tier == "quick" else dt, tier, deadline / len(C13_RUNS), hang=60)
+        absorb_api(rep, d, set(), crash_prop="C13", san_prop="C13")
+        d["probes"]["san_reports_total"] = d["san_reports_total"]
+        runs.append(d)
+        shutil.rmtree(d["_scratch"], ignore_errors=True)
+    rep.coverage = cov_from_api(runs)
+    rep.coverage["sanitizer"] = "g++ -fsanitize=address,undefined -D_GLIBCXX_ASSERTIONS; recoverable ASan errors are attributed to the transition that raised them, fatal ones through the worker breadcrumb"
+    rep.assumptions = ["memory errors that ASan/UBSan(bounds,vptr)/libstdc++ assertions cannot see (e.g. intra-object overflow) are out of reach",
+                       "every distinct state is additionally printed, saved, reloaded and destroyed under the sanitizer"]
+    return rep.finish()
+
+
+# ---------------------------------------------------------------------------------------------- C14
+def read_digests(path):
+    out = {}
+    if os.path.exists(path):
+        for line in open(path, errors="replace"):
+            line = line.rstrip("\n")
+            if not line:
+                continue
+            kd, _, hist = line.partition("\t")
+            k, _, dg = kd.partition(" ")
+            out[k] = (dg, hist)
+    return out
+
+
+def byte_region(off, size):
+    if off < 512:
+        if 396 <= off < 468:
+            return "header.eventLabels"
+        return f"header.word{off // 2 + 1}"
+    return "body"
+
+
+def save_bytes(alphabet, tier, history, env_extra, tag):
+    bdir = build("plain", ("drv_api",))
+    sc = scratch_dir(tag)
+    f = os.path.join(sc, "saved.c3d")
+    env = dict(os.environ); env.update(env_extra)
+    sh([os.path.join(bdir, "drv_api"), "--alphabet", alphabet, "--tier", tier, "--replay", history, "--dump", "--savefile", f, "--scratch", sc], env=env, capture_output=True)
+    b = open(f, "rb").read() if os.path.exists(f) else b""
+    shutil.rmtree(sc, ignore_errors=True)
+    return b
+
+
+def check_c14(tier, deadline):
+    rep = Report("C14", tier, "model_checking")
+    depth = 4 if tier == "quick" else 6
+    envs = [("unset", {}), ("0x55", {"MALLOC_PERTURB_": "85"}), ("0xAA", {"MALLOC_PERTURB_": "170"})]
+    runs, digs = [], []
+    for tag, env in envs:
+        d = run_api("plain", "build", "C14", depth, tier, deadline / 5, env_extra=env, tag="c14" + tag)
+        absorb_api(rep, d, {"C14"}, crash_prop="C14")
+        digs.append(read_digests(os.path.join(d["_scratch"], "digests.txt")))
+        runs.append(d)
+        shutil.rmtree(d["_scratch"], ignore_errors=True)
+    joined = differing = 0
+    base = {"engine": "api", "alphabet": "build", "oracles": "C14", "tier": tier, "flavour": "plain"}
+    classified = {}
+    for k, (dg0, hist) in digs[0].items():
+        others = [dd.get(k) for dd in digs[1:]]
+        if any(o is None for o in others):
+            rep.add("harness/state_missing_in_perturbed_run", "state key not reached under a different MALLOC_PERTURB_ (replay non-determinism)", dict(base, history=hist))
+            continue
+        joined += 1
+        if any(o[0] != dg0 for o in others):
+            differing += 1
+            if len(classified) < 40 or True:
+                # classify by byte region (replay the shortest witnesses only: cheap)
+                b1 = save_bytes("build", tier, hist, envs[1][1], "c14r1") if differing <= 60 else None
+                b2 = save_bytes("build", tier, hist, envs[2][1], "c14r2") if differing <= 60 else None
+                if b1 is None:
+                    continue
+                regions = sorted({byte_region(i, len(b1)) for i in range(min(len(b1), len(b2))) if b1[i] != b2[i]} | ({"length"} if len(b1) != len(b2) else set()))
+                offs = [i for i in range(min(len(b1), len(b2))) if b1[i] != b2[i]]
+                sig = "bytes_depend_on_heap_garbage/" + "+".join(regions)
+                rep.add(sig, f"saved file differs between MALLOC_PERTURB_=0x55 and 0xAA in {len(offs)} byte(s), first offsets {offs[:8]}", dict(base, history=hist, env="MALLOC_PERTURB_=85 vs 170"))
+    # memcheck: the same exploration (shallower) entirely under valgrind; the probe counts memcheck errors around each save
+    vdepth = 1 if tier == "quick" else 2
+    vg = None
+    if shutil.which("valgrind"):
+        bdir = build("plain", ("drv_api",))
+        sc = scratch_dir("c14vg")
+        out = os.path.join(sc, "out.json")
+        cmd = ["valgrind", "-q", "--error-exitcode=0", "--log-file=" + os.path.join(sc, "vg.%p.log"), os.path.join(bdir, "drv_api"), "--alphabet", "build", "--oracles", "C14",
+               "--depth", str(vdepth), "--tier", tier, "--workers", str(WORKERS), "--scratch", sc, "--out", out, "--hang", "600", "--deadline", str(deadline / 3)]
+        t0 = time.time()
+        r = sh(cmd, capture_output=True, text=True)
+        if r.returncode == 0 and os.path.exists(out):
+            vg = json.load(open(out)); vg["_scratch"] = sc; vg["_cmd"] = cmd; vg["_flavour"] = "plain"
+            log(f"[api] memcheck build/C14 depth<={vdepth}: states={vg['states']} transitions={vg['transitions']} {time.time() - t0:.1f}s")
+            absorb_api(rep, vg, {"C14"}, crash_prop="C14")
+        else:
+            rep.notes.append("memcheck pass failed to run: " + r.stderr[-300:])
+        shutil.rmtree(sc, ignore_errors=True)
+    cov = cov_from_api(runs[:1])
+    cov["perturbation_runs"] = [{"MALLOC_PERTURB_": t, "states": d["states"], "saves": d["probes"]["c14"]} for (t, _), d in zip(envs, runs)]
+    cov["states_joined_across_processes"] = joined
+    cov["states_with_differing_bytes"] = differing
+    cov["memcheck"] = {"depth": vdepth, "states": vg["states"], "saves_under_memcheck": vg["probes"]["c14"]} if vg else None
+    cov["exhaustive"] = cov["exhaustive"] and all(d["states"] == runs[0]["states"] for d in runs)
+    rep.coverage = cov
+    rep.assumptions = ["freshly allocated heap bytes differ between MALLOC_PERTURB_ 0x55 and 0xAA, so a byte copied from uninitialised heap differs between the runs; stack-sourced garbage is visible to the memcheck pass only"]
+    return rep.finish()
+
+
 # ---------------------------------------------------------------------------------------------- main
 def do_replay(path):
     r = json.load(open(path))
@@ -344,6 +462,10 @@ def main():
         deadline = float(os.environ.get("VERIF_DEADLINE", "150" if tier == "quick" else "900"))
         if a.prop in API_CHECKS:
             return check_api(a.prop, tier, deadline)
+        if a.prop == "C14":
+            return check_c14(tier, deadline)
+        if a.prop == "C13":
+            return check_c13(tier, deadline)
         print("no check for", a.prop)
         return 2
     ap.print_help()
